@@ -6,11 +6,41 @@ ROOT = "/verif"
 
 # id -> (technique, level text, level note, design ref)
 CLAIMED = {
+    "C02": (
+        "differential testing against an independent table-driven reference codec (systematic one-hot enumeration + proptest-generated full assignments)",
+        "Every packet kind, field, enumerant, flag bit and boundary value of the specification transcription is exercised one-hot in both size modes, then random full assignments; the decoder must show the specified value at each typed field and the encoder must reproduce the reference image byte for byte. Catches symmetric reader/writer deviations that round-trip perfectly.",
+        "Trusted: spec/insim9.spec (hand transcription of InSim.txt v9 / InSim-Relay, self-checked by an offset tiling checksum; ?unit/?opaque fields not asserted), CPython-derived codepage tables, the Debug-rendering observer. Exploration is sampled for multi-field interactions; one-hot coverage of single fields is complete.",
+        "DESIGN.md §2.1, §3 C02",
+    ),
+    "C10": (
+        "complete table sweep + proptest round trips with a differential reference decoder built from CPython codepage tables",
+        "All 60 973 reference table entries behind their markers and all 11x65536 byte pairs after every marker are enumerated completely; constructed multi-codepage wire strings, faithful round trips, unrepresentable characters and random bytes/Unicode are generated with proptest and judged by an independent reference decoder.",
+        "Trusted: CPython's Windows codepage codecs outside private-use / Big5-ETEN zones; marker->codepage assignment as stated by the property; `^^` atomic.",
+        "DESIGN.md §2.2, §3 C10",
+    ),
+    "C12": (
+        "complete enumeration over a character-class alphabet (length <= 5/6) + proptest random strings; round-trip and token-model oracles",
+        "unescape(escape(s)) == s, no raw reserved characters, survival through the codepage path and strip == token model / idempotent are checked for every string over 16 class representatives up to length 5 (quick) or 6 (thorough) and for random longer strings.",
+        "Trusted: the token model of colour stripping and the reserved-character list from the property text.",
+        "DESIGN.md §3 C12",
+    ),
     "C13": (
         "complete enumeration of all 2^32 identifiers against a reference classifier (generated-input search, exhaustive)",
         "Every one of the 2^32 four-byte values is decoded, classified by an independent reference written from the InSim v9 rule, re-encoded and compared byte for byte; Display / is_mod are checked for each. The input space is finite and fully enumerated in both tiers, so for this property exploration is complete.",
         "Trusted: the 20-name table transcribed from InSim.txt, the harness' reference classifier, binrw Cursor I/O. Observes Vehicle through its public BinRead/BinWrite/Display impls.",
         "DESIGN.md §3 C13",
+    ),
+    "C14": (
+        "complete enumeration of all variants and of the 15.76 M shaped 6-byte strings, plus perturbations and proptest random bytes",
+        "All configurations (variant list extracted from the enum at build time) against every accessor table; every string of the wire shape decodes iff it is a configuration's wire form (injectivity); every single-byte perturbation of every wire form; random 6-byte values.",
+        "Trusted: short code = upper-cased variant name (how scripts/combos.py generates both).",
+        "DESIGN.md §3 C14",
+    ),
+    "C16": (
+        "complete enumeration over a 10-symbol alphabet and of all 6.3 M VER wire forms; proptest random strings; all-pairs / sampled-triples order axioms",
+        "Totality, print/re-parse, case-insensitivity and agreement of cmp with a reference lexicographic order are checked for every string over the alphabet up to length 6/7, every 8-byte wire form D.D[D]L[D[D]] through a VER frame, random version-like and Unicode strings, all ordered pairs and millions of triples from a 2 112-version pool.",
+        "Trusted: reference order (f32 partial_cmp, char order, revision-or-0).",
+        "DESIGN.md §3 C16",
     ),
 }
 
